@@ -485,7 +485,7 @@ def run_gates(facts, run, prop):
     n_gates = 0
     n_fns = 0
     for ent in table["functions"]:
-        if prop not in ent["props"]:
+        if prop not in ent["props"] and not (prop == "C18" and "C05" in ent["props"]):
             continue
         if ent.get("configs") and cfg not in ent["configs"]:
             continue
@@ -502,7 +502,7 @@ def run_gates(facts, run, prop):
             summ = eng.summary(fn)
             have_all = gate_strings(summ, include_out=ent.get("include_out", False), pol=eng.policy)
             for g in ent["gates"]:
-                if g.get("props") and prop not in g["props"]:
+                if g.get("props") and prop not in g["props"] and prop != "C18":
                     continue
                 n_gates += 1
                 pat = subst_consts(facts, fn, g["src"])
